@@ -718,8 +718,10 @@ def extra_c07(pid, tier, seed, workdir, known, write_replay):
 
 
 PROPS["C07"] = dict(
-    lean_modules=["WgslVerif.Props.C07"],
-    theorems=["WgslVerif.C07_structs", "WgslVerif.C07_entries", "WgslVerif.C07_format", "WgslVerif.getVertexInputStructs_mem", "WgslVerif.locatedMembers_spec",
+    lean_modules=["WgslVerif.Props.C07", "WgslVerif.Props.C07Buffer", "WgslVerif.Props.C07Nodup"],
+    theorems=["WgslVerif.C07_structs", "WgslVerif.C07_entries", "WgslVerif.C07_format", "WgslVerif.C07_buffer", "WgslVerif.C07_impls_nodup",
+              "WgslVerif.ReprC.layout_bufferOk", "WgslVerif.vertex_sizeAlign", "WgslVerif.fields_attrs",
+              "WgslVerif.getVertexInputStructs_mem", "WgslVerif.locatedMembers_spec",
               "WgslVerif.vertexInputOf_name", "WgslVerif.dedupByName_sub", "WgslVerif.vertexEntryStructs_length"],
     streams=lambda tier, seed: (
         [("fixtures",), ("gen", "vertex", seed, 500), ("gen", "general", seed, 200), ("gen", "entries", seed, 100)] if tier == "quick" else
@@ -730,8 +732,12 @@ PROPS["C07"] = dict(
          "interleaved, several structs per entry, structs shared by entries, bare builtin parameters between struct parameters) x representations / bytemuck / encase switches; each vertex entry is also "
          "handed to the real wgpu-core check_stage with the generated attributes as inputs; non-trivial = at least one vertex input struct; distinct = distinct WGSL text",
     trusted_base=COMMON_TRUSTED + ["WgpuVertex.formatInfo transcribes wgpu_types::VertexFormat (kind, width, components); validated through the real check_stage",
-                                   "offsets and stride are emitted symbolically (offset_of!, size_of) and evaluated by rustc (batch harness); wgpu's vertex-buffer rules (stride % 4, ...) are not modelled"],
-    assumptions=["partial: Nodup of the impl blocks and per-entry buffer order are evaluated on the real output, the kernel-checked part is C07_structs / C07_format / the buffer count (C14)"],
+                                   "Ext.ReprC (size / alignment of the emitted field types on x86-64 with glam 0.29 default features, #[repr(C)] placement) and Ext.WgpuVertex.bufferOk "
+                                   "(wgpu-core 24.0.5 create_render_pipeline: stride % 4, attribute inside the stride, offset % min(size, 4)) are transcriptions; ReprC is validated on every run "
+                                   "against offset_of!/size_of as evaluated by rustc on the real generated modules (harness batch exec)"],
+    assumptions=["C07_buffer: struct names distinct (TypeArenaOk), vertex-capable scalars 4 or 8 bytes wide (all WGSL can declare; checked per module), struct size within the device's "
+                 "max_vertex_buffer_array_stride (2048 by default; larger structs are counted as over-stride-limit); location < max_vertex_attributes is the shader author's",
+                 "partial: a vertex entry with a bare @location parameter outside any struct gets no attribute for it (recorded finding oracle#Input-Missing)"],
 )
 
 
@@ -925,4 +931,236 @@ PROPS["C01"] = dict(
 )
 
 
-PROPS["C16"]["extra"] = extra_c16
+
+# ---------------------------------------------------------------------------------------------------------
+# exec oracle: the REAL generated code, compiled by rustc against the real wgpu / glam / bytemuck / encase, is RUN
+# (harness `batch exec`): vertex_buffer_layout(), <entry>_entry(..), OverrideConstants::constants(), SOURCE
+# ---------------------------------------------------------------------------------------------------------
+
+def run_exec(streams, opts, driver_prop, workdir, name):
+    """returns (lines by kind, tags[(case, opt)] -> list of ';'-tags printed by the Lean driver, case_by_id, summary line)"""
+    cases = write_stream_file(streams, os.path.join(workdir, name + ".cases"))
+    case_by_id = {}
+    for l in open(cases):
+        m = re.match(r'\(src "([^"]*)"', l)
+        if m:
+            case_by_id[re.sub(r"\\u\{([0-9a-fA-F]+)\}", lambda mm: chr(int(mm.group(1), 16)), m.group(1))] = l.rstrip("\n")
+    tags = {}
+    if driver_prop:
+        d = subprocess.run([os.path.join(BIN, "dump"), "--opts", ",".join(str(o) for o in opts)], stdin=open(cases), stdout=subprocess.PIPE, text=True)
+        v = subprocess.run([DRIVER, driver_prop], input=d.stdout, stdout=subprocess.PIPE, text=True)
+        for line in v.stdout.split("\n"):
+            if not line.startswith("V|" + driver_prop + "|"):
+                continue
+            f = line.split("|", 6)
+            tags[(f[2], opts[int(f[3])])] = [t.split(";") for t in f[6].split(",") if ";" in t]
+    out_path = os.path.join(workdir, name + ".out")
+    if os.path.exists(out_path):
+        os.remove(out_path)
+    b = subprocess.run([os.path.join(BIN, "batch"), "exec", "--cases", cases, "--opts", ",".join(str(o) for o in opts), "--out", out_path],
+                       stdout=subprocess.PIPE, stderr=subprocess.STDOUT, text=True)
+    lines = {}
+    summary = None
+    if os.path.exists(out_path):
+        for line in open(out_path):
+            line = line.rstrip("\n")
+            if not line.startswith("("):
+                continue
+            kind = line[1:].split(" ", 1)[0]
+            if kind == "summary":
+                summary = line
+                continue
+            lines.setdefault(kind, []).append(parse_sexp(line)[0])
+    return lines, tags, case_by_id, summary, b.stdout[-400:]
+
+
+def layout_of(t):
+    """(stride, step, [(format, offset, location)]) of a (vbuf ..) / (buf ..) item list"""
+    stride = step = None
+    attrs = []
+    for x in t:
+        if isinstance(x, list) and x:
+            if x[0] == "stride":
+                stride = int(x[1])
+            elif x[0] == "step":
+                step = x[1]
+            elif x[0] == "attr":
+                attrs.append((x[1], int(x[2]), int(x[3])))
+    return stride, step, attrs
+
+
+def extra_c07_exec(pid, tier, seed, workdir, known, write_replay):
+    """vertex_buffer_layout() and <entry>_entry(..) of the real generated code, evaluated by rustc, against Ext.ReprC's prediction and the expected wiring"""
+    n = 1 if tier == "quick" else 10
+    # 16 = glam without bytemuck (padded structs compile: 16-aligned Vec4), 17 = glam + bytemuck (padding is a compile error)
+    opts = [0, 16, 17]
+    streams = [("fixtures",), ("gen", "vertex", seed, 150 * n), ("gen", "entries", seed, 40 * n)]
+    lines, tags, case_by_id, summary, tail = run_exec(streams, opts, "C07", workdir, "exec7")
+    items, counts = [], {}
+    if summary is None:
+        items.append(("exec#harness", "batch exec produced no result: " + tail, "", False))
+    real = {}
+    for t in lines.get("vbuf", []):
+        cid, opt, sname = sx(t[1]), int(t[2]), sx(t[3])
+        stride, step, attrs = layout_of(t[4:])
+        real[(cid, opt, sname, step)] = (stride, attrs)
+        if step != "Vertex":
+            continue
+        pred = next((p for p in tags.get((cid, opt), []) if p[0] == "vb" and p[1] == sname), None)
+        if pred is None:
+            counts["vbuf:no-prediction"] = counts.get("vbuf:no-prediction", 0) + 1
+            continue
+        nums = lambda s_: [int(x) for x in s_.split(".") if x != ""]
+        pstride, poffs, pfmts, plocs = int(pred[2]), nums(pred[3]), [x for x in pred[4].split(".") if x], nums(pred[5])
+        if (stride, [a[1] for a in attrs]) != (pstride, poffs):
+            items.append(("exec#layout-differs", f"struct {sname} opt {opt}: rustc evaluates stride {stride} offsets {[a[1] for a in attrs]}, Ext.ReprC predicts stride {pstride} offsets {poffs}", cid, False))
+        elif ([a[0] for a in attrs], [a[2] for a in attrs]) != (pfmts, plocs):
+            items.append(("exec#attribute-table", f"struct {sname} opt {opt}: executed table {attrs}, facts say formats {pfmts} locations {plocs}", cid, True))
+        else:
+            counts["vbuf:agrees"] = counts.get("vbuf:agrees", 0) + 1
+            if stride != sum({"x2": 2, "x3": 3, "x4": 4}.get(a[0][-2:], 1) * (8 if "64" in a[0] else 4) for a in attrs):
+                counts["vbuf:padded"] = counts.get("vbuf:padded", 0) + 1
+    for (cid, opt, sname, step), (stride, attrs) in list(real.items()):
+        other = real.get((cid, opt, sname, "Instance" if step == "Vertex" else "Vertex"))
+        if other is not None and other != (stride, attrs):
+            items.append(("exec#step-mode-changes-layout", f"struct {sname}: layouts for the two step modes differ beyond the step mode", cid, True))
+    for t in lines.get("ventry", []):
+        cid, opt, fname = sx(t[1]), int(t[2]), sx(t[3])
+        j = int(next(x[1] for x in t[4:] if isinstance(x, list) and x[0] == "call"))
+        ep = sx(next(x[1] for x in t[4:] if isinstance(x, list) and x[0] == "entry_point"))
+        bufs = [layout_of(x[1:]) for x in t[4:] if isinstance(x, list) and x[0] == "buf"]
+        exp = next((p for p in tags.get((cid, opt), []) if p[0] == "ve" and p[1] == fname), None)
+        if exp is None:
+            counts["ventry:no-expectation"] = counts.get("ventry:no-expectation", 0) + 1
+            continue
+        structs = [x for x in exp[3].split(".") if x]
+        bad = None
+        if ep != exp[2]:
+            bad = f"entry_point {ep!r}, expected {exp[2]!r}"
+        elif len(bufs) != len(structs):
+            bad = f"{len(bufs)} buffers for struct parameters {structs}"
+        else:
+            for i, (sname, b) in enumerate(zip(structs, bufs)):
+                want_step = "Instance" if i == j else "Vertex"
+                want = real.get((cid, opt, sname, want_step))
+                if b[1] != want_step:
+                    bad = f"call {j}: buffer {i} has step mode {b[1]}, the caller gave {want_step}"
+                elif want is not None and (b[0], b[2]) != want:
+                    bad = f"call {j}: buffer {i} is not {sname}::vertex_buffer_layout: {b} vs {want}"
+                if bad:
+                    break
+        if bad:
+            items.append(("exec#entry-buffers", f"{fname} opt {opt}: {bad}", cid, True))
+        else:
+            counts["ventry:ok"] = counts.get("ventry:ok", 0) + 1
+            if len(structs) > 1:
+                counts["ventry:multi-buffer"] = counts.get("ventry:multi-buffer", 0) + 1
+    viol, kn = classify_and_report(pid, items, known, write_replay, case_by_id)
+    return {"exec_summary": summary, "exec_verdicts": counts,
+            "exec_oracle": "rustc-evaluated offset_of!/size_of of the real generated structs (wgpu 24.0.5, glam 0.29, x86-64) and the executed <entry>_entry helpers (harness batch exec)"}, viol, kn, []
+
+
+def extra_c12(pid, tier, seed, workdir, known, write_replay):
+    """OverrideConstants::constants() of the real generated code is RUN and its map handed to the REAL naga process_overrides"""
+    n = 1 if tier == "quick" else 10
+    streams = [("fixtures",), ("gen", "consts", seed, 150 * n), ("gen", "general", seed, 60 * n), ("gen", "entries", seed, 30 * n)]
+    lines, _, case_by_id, summary, tail = run_exec(streams, [0], None, workdir, "exec12")
+    items, counts = [], {}
+    if summary is None:
+        items.append(("exec#harness", "batch exec produced no result: " + tail, "", False))
+    for t in lines.get("ovres", []):
+        cid, a, fin = sx(t[1]), t[3], t[4]
+        rest = t[5:]
+        for x in rest:
+            if isinstance(x, list) and x and x[0] == "keys-differ":
+                items.append(("exec#override-keys", f"assignment {a}: constants() has keys {[sx(k) for k in x[2]]}, the supplied overrides are keyed {[sx(k) for k in x[1]]}", cid, True))
+        if "accepted" in rest:
+            diffs = [x for x in rest if isinstance(x, list) and x and x[0] == "value-differs"]
+            if diffs:
+                d = diffs[0]
+                items.append(("exec#override-value", f"assignment {a}: override {sx(d[1])} ({d[2]}) supplied {d[3]}, naga resolved {sx(d[4])[:120]}", cid, True))
+            else:
+                counts[f"{fin}:accepted-values-seen"] = counts.get(f"{fin}:accepted-values-seen", 0) + 1
+            continue
+        rej = next((x for x in rest if isinstance(x, list) and x and x[0] == "rejected"), None)
+        if rej is None:
+            counts["unreadable:" + str(rest[:1])] = counts.get("unreadable:" + str(rest[:1]), 0) + 1
+            continue
+        variant = sx(rej[1])
+        if variant.startswith(("ConstantEvaluatorError", "ValidationError", "NegativeWorkgroupSize")):
+            # the map itself was taken (every key resolved, every value converted); the SHADER has no meaning for this value:
+            # another override's default expression overflows, an array length / workgroup size derived from it is 0
+            k = f"{fin}:shader-rejects-value:{variant.split('(')[0]}"
+            counts[k] = counts.get(k, 0) + 1
+        elif fin == "nonfinite" and variant.startswith("SrcNeedsToBeFinite"):
+            counts["nonfinite:SrcNeedsToBeFinite"] = counts.get("nonfinite:SrcNeedsToBeFinite", 0) + 1
+            items.append(("exec#override-nonfinite", f"assignment {a}: an f32 field holding an infinity / NaN is passed on as is and naga rejects the map ({sx(rej[2])})", cid, True))
+        else:
+            items.append((f"exec#override-rejected-{variant.split('(')[0]}", f"assignment {a} ({fin}): naga rejects the map: {sx(rej[2])[:200]}", cid, True))
+    viol, kn = classify_and_report(pid, items, known, write_replay, case_by_id)
+    return {"exec_summary": summary, "exec_verdicts": counts,
+            "exec_oracle": "OverrideConstants::constants() executed (rustc-compiled real module) on 9 finite + 3 non-finite assignments per shader, map resolved by naga 24 process_overrides"}, viol, kn, []
+
+
+def extra_c14(pid, tier, seed, workdir, known, write_replay):
+    """the entry helpers of the real generated code are RUN: entry_point string, number of targets / buffers"""
+    n = 1 if tier == "quick" else 10
+    streams = [("fixtures",), ("gen", "entries", seed, 120 * n), ("gen", "vertex", seed, 40 * n)]
+    lines, tags, case_by_id, summary, tail = run_exec(streams, [0], "C14", workdir, "exec14")
+    items, counts = [], {}
+    if summary is None:
+        items.append(("exec#harness", "batch exec produced no result: " + tail, "", False))
+    for kind, key in (("fentry", "fe"), ("ventry", "ve")):
+        for t in lines.get(kind, []):
+            cid, opt, fname = sx(t[1]), int(t[2]), sx(t[3])
+            ep = sx(next(x[1] for x in t[4:] if isinstance(x, list) and x[0] == "entry_point"))
+            got = int(next(x[1] for x in t[4:] if isinstance(x, list) and x[0] == "targets")) if kind == "fentry" else sum(1 for x in t[4:] if isinstance(x, list) and x[0] == "buf")
+            exp = next((p for p in tags.get((cid, opt), []) if p[0] == key and p[1] == fname), None)
+            if exp is None:
+                counts[kind + ":no-expectation"] = counts.get(kind + ":no-expectation", 0) + 1
+            elif ep != exp[2]:
+                items.append(("exec#entry-point", f"{fname} returns entry_point {ep!r}; the WGSL entry point is {exp[2]!r}", cid, True))
+            elif got != int(exp[3]):
+                items.append(("exec#entry-count", f"{fname} returns {got} {'targets' if kind == 'fentry' else 'buffers'}, {exp[3]} needed", cid, True))
+            else:
+                counts[kind + ":ok"] = counts.get(kind + ":ok", 0) + 1
+    viol, kn = classify_and_report(pid, items, known, write_replay, case_by_id)
+    return {"exec_summary": summary, "exec_verdicts": counts}, viol, kn, []
+
+
+def exec_c16(pid, tier, seed, workdir, known, write_replay):
+    """the embedded SOURCE constant as rustc reads it"""
+    n = 1 if tier == "quick" else 10
+    streams = [("fixtures",), ("gen", "unicode", seed, 150 * n), ("gen", "general", seed, 40 * n), ("big", 120, 3)]
+    lines, _, case_by_id, summary, tail = run_exec(streams, [0], None, workdir, "exec16")
+    items, counts = [], {}
+    if summary is None:
+        items.append(("exec#harness", "batch exec produced no result: " + tail, "", False))
+    for t in lines.get("source", []):
+        cid, verdict = sx(t[1]), t[-1]
+        counts["source:" + verdict] = counts.get("source:" + verdict, 0) + 1
+        if verdict != "same":
+            items.append(("exec#source-differs", f"SOURCE as compiled has {t[3]} bytes (fnv {t[4]}); it is not the input text", cid, True))
+    viol, kn = classify_and_report(pid, items, known, write_replay, case_by_id)
+    return {"exec_summary": summary, "exec_verdicts": counts}, viol, kn, []
+
+
+def combine_extras(*fs):
+    def run(pid, tier, seed, workdir, known, write_replay):
+        ev, viol, kn, notes = {}, [], [], []
+        for f in fs:
+            e, v, k, nn = f(pid, tier, seed, workdir, known, write_replay)
+            for key, val in e.items():
+                ev[key if key not in ev else f.__name__ + ":" + key] = val
+            viol += v
+            kn += [x for x in k if x not in kn]
+            notes += nn
+        return ev, viol, kn, notes
+    return run
+
+
+PROPS["C07"]["extra"] = combine_extras(extra_c07, extra_c07_exec)
+PROPS["C12"]["extra"] = extra_c12
+PROPS["C14"]["extra"] = extra_c14
+
+PROPS["C16"]["extra"] = combine_extras(extra_c16, exec_c16)
